@@ -8,6 +8,7 @@ import MosnVerif.Model.ReadLoopSpec
 import MosnVerif.Drive.DispatchCtx
 import MosnVerif.Model.FrameOwn
 import MosnVerif.Drive.C07H1Seg
+import MosnVerif.Drive.C07H1Cont
 /-! driver of C07 (segmentation independence): see `run` for the case kinds. Core Lean only. -/
 namespace MosnVerif.Drive.C07
 open MosnVerif.Model.FramingS MosnVerif.Model.FrameH2 MosnVerif.Gen.FrameConsts
@@ -321,6 +322,8 @@ def run (caseToks impl : List String) : String :=
   | ["pkt", proto, stream, frames, chunks] => pkt proto stream frames chunks impl
   | ["h2own", dir, stream, msgs, chunks] => h2own dir stream msgs chunks impl
   | ["ctx", proto, _stream, frames, chunks] => MosnVerif.Drive.DispatchCtx.run proto frames chunks impl
+  | ["h1seg", "exp", delay, stream, chunks] => MosnVerif.Drive.C07H1Cont.runExp delay stream chunks impl
+  | ["h1seg", "trl", delay, stream, chunks] => MosnVerif.Drive.C07H1Cont.runTrl delay stream chunks impl
   | ["h1seg", side, delay, stream, chunks] => MosnVerif.Drive.C07H1Seg.run side delay stream chunks impl
   | _ => "E E unknown-kind"
 
